@@ -2,7 +2,8 @@ import Driver.Util
 import Aurora.Model.Mantaray
 /-! Driver for C10: the mantaray trie model (`Aurora.Mantaray.step`) on the op lines of the harness.
     Entries are 32 (plain) or 64 (encrypted manifest) copies of the reference byte; metadata is the
-    canonical `k=v;k=v` string (`-` = none), opaque to the model. -/
+    canonical `k=v;k=v` string (`-` = none; long values in the run-length form `c~n`), opaque to the model.
+    `lsroundtrip <size> <seed>` ties the load-saver (pkg/file/loadsave) to the identity the model assumes. -/
 namespace Driver.C10
 open Aurora.Mantaray
 
@@ -10,17 +11,36 @@ structure St where
   s : State := State.new
   enc : Bool := false
 
+def maxLit : Nat := 64
+def maxRun : Nat := 60000
+
+def okc (t : String) : Bool := t.toList.all (fun c => ('a' ≤ c && c ≤ 'z') || ('0' ≤ c && c ≤ '9'))
+
+/-- a natural number in canonical decimal form (digits only, no leading zero) -/
+def canonNat (t : String) : Option Nat :=
+  if !t.isEmpty && t.toList.all Char.isDigit && (t = "0" || t.toList.head? ≠ some '0') && t.length ≤ 18 then t.toNat? else none
+
+/-- a metadata value: a literal of at most `maxLit` characters, or the run-length form `<c>~<n>`
+    (`maxLit < n ≤ maxRun`) the big-node cases use.  Returns (well-formed, is a run). -/
+def valOk (v : String) : Bool × Bool :=
+  match v.splitOn "~" with
+  | [lit] => (okc lit && lit.length ≤ maxLit, false)
+  | [c, n] => (c.length = 1 && okc c && (match canonNat n with | some k => maxLit < k && k ≤ maxRun | none => false), true)
+  | _ => (false, false)
+
+/-- the canonical metadata token (`-`, or `k=v;…` with ascending keys; at most one run-length value).
+    The token is canonical, so the model carries it as the (opaque) metadata and prints it back. -/
 def metaOk (s : String) : Bool :=
   if s = "-" then true else
   let kvs := s.splitOn ";"
   let parsed := kvs.map (fun kv => kv.splitOn "=")
-  let okc (t : String) : Bool := t.toList.all (fun c => ('a' ≤ c && c ≤ 'z') || ('0' ≤ c && c ≤ '9'))
-  let wf := parsed.all (fun f => match f with | [k, v] => k ≠ "" && okc k && okc v | _ => false)
+  let wf := parsed.all (fun f => match f with | [k, v] => k ≠ "" && okc k && k.length ≤ maxLit && (valOk v).1 | _ => false)
+  let runs := (parsed.filter (fun f => match f with | [_, v] => (valOk v).2 | _ => false)).length
   let keys := parsed.map (fun f => f.headD "")
   let rec sorted : List String → Bool
     | a :: b :: rest => decide (a < b) && sorted (b :: rest)
     | _ => true
-  wf && sorted keys
+  wf && sorted keys && runs ≤ 1
 
 def metaBytes (s : String) : Meta := if s = "-" then [] else s.toUTF8.toList
 def metaStr (m : Meta) : String :=
@@ -42,6 +62,14 @@ def step (st : St) (op : List String) : St × String :=
     if e = "0" then ({ s := State.new, enc := false }, "ok")
     else if e = "1" then ({ s := State.new, enc := true }, "ok")
     else (st, "bad-op")
+  | ["lsroundtrip", n, sd] =>
+    -- `loadsave.Load (loadsave.Save x) = x` for a blob of n bytes.  The manifest model has no heap (a
+    -- reference denotes the persisted tree): it assumes exactly this identity of the load-saver for node
+    -- blobs of every size; this op makes the assumption observable (that pipeline + joiner satisfy it is
+    -- C01's `C01_upload_then_stored` / `C01_readAt_exact`).  Independent of the manifest state.
+    match canonNat n, canonNat sd with
+    | some n, some sd => if n ≤ 4 * 262144 && sd < 4294967296 then (st, s!"same {n}") else (st, "bad-op")
+    | _, _ => (st, "bad-op")
   | ["store"] => run1 st .store
   | ["reload"] => run1 st .reload
   | ["remove", p] => match Driver.hexToBytes p with | some p => run1 st (.remove p) | none => (st, "bad-op")
